@@ -304,6 +304,26 @@ func (c *Ctx) ruleCopyWriteback(pkgs ...string) {
 					if l, ok := rets[0].Results[0].(*ssa.Lookup); ok {
 						lk = l
 						P.PinnedAll(pinMap{callee: x}, func() { lkMap, lkKey = P.Desc(l.X), P.Desc(l.Index) })
+					} else {
+						// get-or-create: `found, ok := m[k]; if !ok { found = T{}; m[k] = found }; return found` - what is
+						// returned is the stored copy or a fresh value that was stored under the key just now
+						P.PinnedAll(pinMap{callee: x}, func() {
+							for _, r := range P.Resolve(rets[0].Results[0]) {
+								var l *ssa.Lookup
+								switch y := r.(type) {
+								case *ssa.Lookup:
+									l = y
+								case *ssa.Extract:
+									if ll, ok := y.Tuple.(*ssa.Lookup); ok && y.Index == 0 {
+										l = ll
+									}
+								}
+								if l != nil {
+									lk = l
+									lkMap, lkKey = P.Desc(l.X), P.Desc(l.Index)
+								}
+							}
+						})
 					}
 				}
 			}
